@@ -404,3 +404,7 @@ func RefNBT(b []byte, pos int, tag byte, depth int) (status, end int) {
 	}
 	return NBTBadTag, pos
 }
+
+// StubArgIs reports whether the named stub was last called with exactly the
+// pointer p (engine only; true natively).
+func StubArgIs(name string, p any) bool { return true }
